@@ -96,6 +96,11 @@ func callTypedNative(fn string, d DT, t *tensor.Dense, axis int) (flat []interfa
 			if len(dims) <= depth {
 				dims = append(dims, v.Len())
 			}
+			// a row handed out by the native conversions ends where the row ends: appending to it must not
+			// reach the next row's elements
+			if depth > 0 && v.Len() > 0 && v.Index(0).Kind() != reflect.Slice && v.Cap() != v.Len() && err == nil {
+				err = fmt.Errorf("native.%s hands out a row of length %d with capacity %d: appending to it would overwrite the following elements", fn, v.Len(), v.Cap())
+			}
 			for i := 0; i < v.Len(); i++ {
 				walk(v.Index(i), depth+1)
 			}
@@ -104,5 +109,5 @@ func callTypedNative(fn string, d DT, t *tensor.Dense, axis int) (flat []interfa
 		flat = append(flat, v.Interface())
 	}
 	walk(out[0], 0)
-	return flat, dims, nil
+	return flat, dims, err
 }
